@@ -118,6 +118,24 @@ func c10Scenarios(tier string) []e1lib.Scenario {
 				Nontrivial: func(outcomes, execs, states int) bool { return len(c.Input) >= 1 && execs > 1 }})
 		}
 	}
+	// a monoid over a reference type whose Empty() hands out a fresh accumulator and whose Combine adds into its left
+	// operand (big.Int, a map-backed bag): the workers' accumulators and the collector's must all be their own
+	for par := 1; par <= 3; par++ {
+		for k := 0; k <= 3; k++ {
+			if par == 3 && k == 3 && tier == "quick" {
+				continue
+			}
+			input := make([]int, k)
+			for i := range input {
+				input[i] = 1 << (3 * (i + 1))
+			}
+			c := forkh.Cfg{Stage: "foldptr", Par: par, Input: input, InCap: 0, Monoid: "sum", Stop: -1}
+			ref := c
+			ref.Stage = "fold"
+			out = append(out, e1lib.Scenario{Name: forkName(c), Root: func() { forkh.Scenario(c) }, Check: c10Check(ref), Bound: -1, Sample: c, Sym: true, RealDone: []string{"got-eof"},
+				Nontrivial: func(outcomes, execs, states int) bool { return len(c.Input) >= 2 && c.Par >= 2 && execs > 1 }})
+		}
+	}
 	// many workers: far more workers than elements, and more than any plausible fixed buffer (8, 16, 32, 64)
 	db := 2
 	if tier == "thorough" {
